@@ -22,7 +22,9 @@ THEOREMS = {
     "Dawgs.Tie.C17Order": [TIE + t for t in [
         "skeleton_breadthFirst", "skeleton_bufferedPipe", "skeleton_submit_receive",
         "order_inc_before_submit", "order_dec_after_loop", "order_completion_after_dec",
-        "order_defers_and_capacity", "order_coordinator", "order_error_path", "order_pipe"]],
+        "order_defers_and_capacity", "order_coordinator", "order_error_path", "order_pipe",
+        "order_visited_sets_64bit", "order_no_id_narrowing", "order_visited_set_sites", "traversal_exports_classified",
+        "visited_filter_testandset_atomic", "uses_c13_checkedAdd_atomic"]],
 }
 STATED_NOT_PROVED = []
 
@@ -38,10 +40,15 @@ def regen(ctx):
                  env=GOENV, timeout=600)
     if rc != 0 or not os.path.exists(out):
         raise RuntimeError("c17order extractor failed: " + log[-800:])
+    # the lock skeleton of cardinality/lock.go (property C13's table): the atomic test-and-set the filter models assume
+    import importlib
+    importlib.import_module("props.c13").regen(ctx)
 
 
 def nontrivial(ops, impl):
     body = [o for o in ops if not o.startswith("#")]
+    if any(o.startswith("flt ") for o in body):
+        return sum(o.startswith("edge") for o in body) >= 3 and any(int(o.split()[3]) >= 2 for o in body if o.startswith("flt "))
     if any(o.startswith("fsl ") for o in body):
         q = next(o for o in body if o.startswith("fsl ")).split()
         return (int(q[1]) > 0 or int(q[2]) > 0) and len(q[4]) >= 3
@@ -75,6 +82,11 @@ def finding_key(suite, ops, line, msg):
         fault = run[2] if run else "?"
         return "C17:BreadthFirst:%s-%s" % (fault, cls)
     op = ops[line].split()[0] if line < len(ops) and ops[line].split() else "?"
+    if suite["name"] == "c17flt":
+        mode = ops[line].split()[1] if line < len(ops) and len(ops[line].split()) > 1 else "?"
+        site = {"unique": "UniquePathSegmentFilter", "collect": "NodeCollector+PathCollector", "acyclic": "AcyclicNodeFilter",
+                "fslskip": "UniquePathSegmentFilter+FilteredSkipLimit"}.get(mode, mode)
+        return "C17:BreadthFirst+traversal.%s:%s" % (site, cls)
     if suite["name"] in ("c17fsl", "c17pnq", "c17pat"):
         return "C17:%s:%s" % ({"c17fsl": "traversal.FilteredSkipLimit", "c17pnq": "ops.ParallelNodeQuery", "c17pat": "traversal.pattern.Driver"}[suite["name"]], cls)
     if suite["name"] == "c17seq":
@@ -144,8 +156,9 @@ def extra_coverage(ctx, stats):
         "stated_not_proved": STATED_NOT_PROVED,
         "partial_runtime_aspects": [
             "goroutine cleanup: in the LTS every worker has returned and the pipe goroutine has returned or is enabled to (bf_return_no_goroutine_left); that the Go "
-            "runtime really runs that last step is observed: runtime.NumGoroutine must settle back within 10 s after every BreadthFirst run and after every closed/cancelled "
-            "pipe, otherwise the monitors reject with class goroutine-leak",
+            "runtime really runs that last step is observed with the CALLER'S CONTEXT KEPT ALIVE after return (success or error): a stack dump filtered on dawgs traversal / "
+            "util/channels frames must be back to its pre-run count within 10 s (polled) after every BreadthFirst run and after every closed/cancelled pipe, otherwise the "
+            "monitors reject with class goroutine-leak and name the parked frame; the context the pipe listens on is also an extracted order fact (order_defers_and_capacity)",
             "wall-clock promptness: only a hang detector (>= 20 s, or 4 s of complete driver inactivity with nothing in flight)",
             "unsynchronised PathSegment.size roll-up: outside the LTS and outside the statement; counted by the -race pass of the thorough tier as an observation",
         ],
@@ -158,7 +171,7 @@ def extra_coverage(ctx, stats):
             "O4 pattern.Driver: the fetch for the next expansion reuses the current expansion's fetch direction, a direction change loses the first hop (pattern_mixed_direction_drops)": "reproduced on the real code",
         },
         "unmodelled": ["ops.Operation[T] reader/writer job pool (jobs are arbitrary caller functions), ParallelNodeQueryBuilder.Stream merge channel",
-                       "LightweightDriver (graph cache), UniquePathSegmentFilter / AcyclicNodeFilter wrappers",
+                       "LightweightDriver itself (graph cache + shallow fetch scanner): exempt by name in Dawgs.C17.Tie.traversal_exports_classified; its filter/visitor call pattern is what c17flt drives",
                        "user filters that read or advance the TraversalContext's LimitSkipTracker themselves (modelled as pure functions of the segment/node); plan.BranchQuery, DepthExceptionHandler"],
     }
     if ctx.tier == "thorough":
@@ -220,7 +233,7 @@ SPEC = {
     "theorems_by_module": THEOREMS,
     "gate_modules": ["Dawgs.Model.C17", "Dawgs.Model.C17Seq", "Dawgs.Spec.C17", "Dawgs.Proofs.C17Pipe", "Dawgs.Proofs.C17BF",
                      "Dawgs.Proofs.C17Seq", "Dawgs.Props.C17", "Dawgs.Tie.C17Order", "Dawgs.Generated.C17_order",
-                     "Dawgs.Model.C17Par", "Dawgs.Proofs.C17Par", "Dawgs.Props.C17Par"],
+                     "Dawgs.Model.C17Par", "Dawgs.Proofs.C17Par", "Dawgs.Props.C17Par"],   # (C13's own files are gated by ./check C13)
     "regen": regen,
     "suites": [
         {"name": "c17pipe", "model_suite": "c17pipe", "monitor_suite": "c17pipemon", "keep_prefix": 2, "shrink_budget": 60},
@@ -231,6 +244,7 @@ SPEC = {
         {"name": "c17fsl", "model_suite": "c17fsl", "monitor_suite": "c17fslmon", "keep_prefix": 1, "shrink_budget": 20},
         {"name": "c17pnq", "model_suite": "c17pnq", "monitor_suite": "c17pnqmon", "keep_prefix": 1, "shrink_budget": 8},
         {"name": "c17pat", "model_suite": "c17pat", "monitor_suite": "c17patmon", "keep_prefix": 2, "shrink_budget": 80},
+        {"name": "c17flt", "model_suite": "c17flt", "monitor_suite": "c17fltmon", "keep_prefix": 2, "shrink_budget": 60},
     ],
     "nontrivial": nontrivial,
     "finding_key": finding_key,
@@ -243,20 +257,25 @@ SPEC = {
             "path filter; model-compared and judged against the plan-defined result (filters first, then the window). c17fsl: FilteredSkipLimit over random answer "
             "sequences x skip x limit, sequential (exact) and concurrent (count); c17pnq: real ParallelNodeQuery over 1-12 id ranges x 1-5 workers x failing ranges (fewer than "
             "workers, plus the O2 corpus case); c17pat: real BreadthFirst with pattern.Driver over the structured graphs x 1-3 expansions x min/max depth x direction, matches "
-            "compared as a multiset with the transcription and judged against the tag-free recursive semantics. "
+            "compared as a multiset with the transcription and judged against the tag-free recursive semantics. c17flt: the library's own filters and collectors "
+            "(UniquePathSegmentFilter, AcyclicNodeFilter, FilteredSkipLimit, NodeCollector, PathCollector) under the real parallel BreadthFirst on DAGs with a hub reached over 8-32 "
+            "distinct inbound edges and 300-2000 leaves, 1-8 workers, oracle = each result exactly once = the sequential enumeration. Node and edge ids of c17seq/c17pat/c17flt come "
+            "from six alphabets: small, pairs congruent mod 2^32, all congruent mod 2^32, congruent mod 2^16, >= 2^63, and a mix up to 2^64-1. "
             "A case is non-trivial when: pipe script with >= 2 submissions and a read or a cancel; any concurrent burst; a traversal of >= 3 segments with >= 2 workers "
             "or any injected fault; a helper query on a graph with >= 2 edges that has a skip/limit window or a rejecting filter; an fsl case with skip or limit and >= 3 calls; a pnq case "
-            "with >= 2 ranges and (>= 2 workers or a failing range); a pattern with >= 2 expansions or an optional step on >= 2 edges. distinct = distinct op-line sequences (sha1)",
+            "with >= 2 ranges and (>= 2 workers or a failing range); a pattern with >= 2 expansions or an optional step on >= 2 edges; a filter case with >= 3 edges and >= 2 workers. distinct = distinct op-line sequences (sha1)",
     "expected_branches": ["branch.pipe.submit_while_buffered", "branch.pipe.close_with_buffered", "branch.pipe.cancel_with_buffered",
                           "branch.pipe.flush_exit", "branch.pipe.read_empty", "branch.pipe.submit_refused", "branch.pipe.burst",
                           "branch.bf.fault_hit_err", "branch.bf.fault_hit_cancel", "branch.bf.fault_hit_mem", "branch.bf.workers_8",
                           "branch.bf.fault_hit_swallow", "branch.bf.fault_hit_cswallow", "branch.bf.ctx_class_error_reported",
                           "branch.bf.memlimit", "branch.seq.node_filter_rejecting_with_window", "branch.seq.descent_filter", "branch.seq.path_filter",
-                          "branch.fsl.concurrent", "branch.fsl.skip_and_limit", "branch.pnq.errors_returned", "branch.pat.optional_step", "branch.pat.nonempty"],
+                          "branch.fsl.concurrent", "branch.fsl.skip_and_limit", "branch.pnq.errors_returned", "branch.pat.optional_step", "branch.pat.nonempty", "branch.flt.unique", "branch.flt.collect", "branch.flt.acyclic", "branch.flt.fslskip", "branch.flt.parallel"],
     "trusted_base": ["Go channel / select / context / sync/atomic / WaitGroup semantics (modelled as atomic rendezvous and atomic counter ops)",
                      "gammazero/deque (modelled as a list)",
                      "the go/ast order-fact extractor tools/extract/c17order (syntactic; cross-checked by the behavioural tie)",
-                     "BufferedPipe inside BreadthFirst is the Pipe LTS itself (same `Pipe.step` function)"],
+                     "BufferedPipe inside BreadthFirst is the Pipe LTS itself (same `Pipe.step` function)",
+                     "the visited set's test-and-set is one atomic action: property C13's checkedAdd_atomic over the lock skeleton of cardinality/lock.go "
+                     "(Dawgs.C17.Tie.visited_filter_testandset_atomic re-checks the extracted skeleton on every C17 run)"],
     "assumptions": ["numWorkers >= 1 (numWorkers = 0 hangs: outside the quantifier 1..N)",
                     "the driver is a function of the segment (a finite tree); drivers with side effects across segments (UniquePathSegmentFilter) are not modelled",
                     "graph.ID arithmetic in parallelNodeQuery does not overflow uint64 (modelled on Nat)",
